@@ -1377,7 +1377,7 @@ func c10Boundary(r *c10Rand, c *c10Case, self, other common.Address) (code []byt
 	a := newAsm()
 	ret32 := func() { a.push(0).op(MSTORE).push(32).push(0).op(RETURN) }
 	word32 := func(v uint64) []byte { return common.BigToHash(new(big.Int).SetUint64(v)).Bytes() }
-	switch k := r.Intn(41); k {
+	switch k := r.Intn(43); k {
 	case 23, 24, 25, 27, 28: // systematic offset/length matrix for every offset-taking opcode
 		name = "offset-matrix"
 		two := func(n uint) *big.Int { return new(big.Int).Lsh(big.NewInt(1), n) }
@@ -2286,47 +2286,8 @@ func c10Boundary(r *c10Rand, c *c10Case, self, other common.Address) (code []byt
 		default:
 			switch p {
 			case 1:
-				if r.Chance(1, 2) {
-					in = append(r.Bytes(32), w32(big.NewInt(int64(26+r.Intn(4))))...)
-					in = append(in, r.Bytes(64)...)
-					break
-				}
-				// a real signature by a fixed key over a random hash: as produced (s in the lower half of the group
-				// order), or its twin (r, N-s, v^1) which is just as valid for ECRECOVER (EIP-2's low-s rule is about
-				// transaction signatures only), or with a wrong recovery id / garbage in the v word
-				key, _ := crypto.HexToECDSA("b71c71a67e1177ad4e901695e1b4b9ee17ae16c6668d313eac2f96dbcda3f291")
-				hash := r.Bytes(32)
-				sig, err := crypto.Sign(hash, key)
-				if err != nil {
-					break
-				}
-				rr, ss, v := new(big.Int).SetBytes(sig[:32]), new(big.Int).SetBytes(sig[32:64]), sig[64]
-				variant := r.Pick(3, 4, 1, 1)
-				if variant == 1 {
-					ss.Sub(crypto.S256().Params().N, ss)
-					v ^= 1
-				}
-				vw := w32(big.NewInt(int64(27 + v)))
-				if variant == 3 {
-					vw[r.Intn(31)] = 1 // non-zero high bytes in the v word: no recovery
-				}
-				in = append(append(append(append([]byte{}, hash...), vw...), w32(rr)...), w32(ss)...)
-				if variant <= 1 {
-					exp := make([]byte, 160)
-					copy(exp[12:32], crypto.PubkeyToAddress(key.PublicKey).Bytes())
-					exp[95], exp[127] = 1, 32
-					c.specRet, c.specName = exp, "kvm-ecrecover"
-					c.specWhat = "ECRECOVER (precompile 0x01) of a valid signature must return the signer's address"
-					if variant == 1 {
-						c.specName = "kvm-ecrecover-rejects-high-s"
-						c.specWhat = "ECRECOVER (precompile 0x01) of the high-s twin (r, N-s, v^1) of a valid signature must return the signer's address, as the reference EVM does (the low-s rule of EIP-2 applies to transaction signatures only)"
-					}
-				} else if variant == 3 {
-					exp := make([]byte, 160)
-					exp[95] = 1
-					c.specRet, c.specName = exp, "kvm-ecrecover"
-					c.specWhat = "ECRECOVER with a v word that has non-zero high bytes must return nothing"
-				}
+				in = append(r.Bytes(32), w32(big.NewInt(int64(26+r.Intn(4))))...)
+				in = append(in, r.Bytes(64)...)
 			case 5:
 				in = append(append(lenWord(), lenWord()...), lenWord()...)
 				switch r.Intn(3) {
@@ -2354,7 +2315,7 @@ func c10Boundary(r *c10Rand, c *c10Case, self, other common.Address) (code []byt
 			default:
 				in = r.Bytes([]int{1, 31, 32, 33, 55, 56, 63, 64, 65, 119, 120, 128}[r.Intn(12)])
 			}
-			if r.Chance(1, 5) && len(in) > 0 && c.specRet == nil {
+			if r.Chance(1, 5) && len(in) > 0 {
 				in = in[:r.Intn(len(in))]
 			}
 		}
@@ -2375,6 +2336,85 @@ func c10Boundary(r *c10Rand, c *c10Case, self, other common.Address) (code []byt
 		a.push(base + 64).op(MSTORE)
 		a.op(RETURNDATASIZE).push(base + 96).op(MSTORE)
 		a.push(160).push(base).op(RETURN)
+	case 21: // ECRECOVER (precompile 0x01) on real signatures: as signed (low s), the equally valid high-s twin, wrong v
+		name = "ecrecover-signature"
+		c.gas = 1000000
+		w32 := func(v *big.Int) []byte { return common.BigToHash(v).Bytes() }
+		key, _ := crypto.HexToECDSA("b71c71a67e1177ad4e901695e1b4b9ee17ae16c6668d313eac2f96dbcda3f291")
+		hash := r.Bytes(32)
+		sig, err := crypto.Sign(hash, key)
+		if err != nil {
+			a.op(STOP)
+			break
+		}
+		rr, ss, v := new(big.Int).SetBytes(sig[:32]), new(big.Int).SetBytes(sig[32:64]), sig[64]
+		variant := r.Pick(4, 4, 1, 1)
+		if variant == 1 { // (r, N-s, v^1): just as valid for ECRECOVER — EIP-2's low-s rule is about transaction signatures only
+			ss.Sub(crypto.S256().Params().N, ss)
+			v ^= 1
+		}
+		if variant == 2 {
+			v ^= 1 // wrong recovery id: some other address (or nothing) comes out; compared with the arbiter only
+		}
+		vw := w32(big.NewInt(int64(27 + v)))
+		if variant == 3 {
+			vw[r.Intn(31)] = 1 // non-zero high bytes in the v word: no recovery
+		}
+		in := append(append(append(append([]byte{}, hash...), vw...), w32(rr)...), w32(ss)...)
+		exp := make([]byte, 160)
+		switch variant {
+		case 0, 1:
+			copy(exp[12:32], crypto.PubkeyToAddress(key.PublicKey).Bytes())
+			exp[95], exp[127] = 1, 32
+			c.specRet, c.specName = exp, "kvm-ecrecover"
+			c.specWhat = "ECRECOVER (precompile 0x01) of a valid signature must return the signer's address"
+			if variant == 1 {
+				c.specName = "kvm-ecrecover-rejects-high-s"
+				c.specWhat = "ECRECOVER (precompile 0x01) of the high-s twin (r, N-s, v^1) of a valid signature must return the signer's address, as the reference EVM does (the low-s rule of EIP-2 applies to transaction signatures only)"
+				c.ecHighS = true
+			}
+		case 3:
+			exp[95] = 1
+			c.specRet, c.specName = exp, "kvm-ecrecover"
+			c.specWhat = "ECRECOVER with a v word that has non-zero high bytes must return nothing"
+		}
+		c10StoreBytes(a, in)
+		a.push(64).push(128).push(128).push(0)
+		kind := []OpCode{CALL, STATICCALL, DELEGATECALL, CALLCODE}[r.Intn(4)]
+		if kind == CALL || kind == CALLCODE {
+			a.push(0)
+		}
+		a.push(1).op(GAS).op(kind)
+		a.push(192).op(MSTORE)
+		a.op(RETURNDATASIZE).push(224).op(MSTORE)
+		a.push(160).push(128).op(RETURN)
+	case 41: // execution context (ADDRESS, CALLER, CALLVALUE) through two nested calls of every kind
+		name = "call-context"
+		c.gas = 1000000
+		c.value = big.NewInt(int64(r.Intn(3) * (1 + r.Intn(40))))
+		c.accts0bal = big.NewInt(int64(100 + r.Intn(100)))
+		leaf := common.BytesToAddress([]byte{0xc0, 0xde, 0x00, 0x0a})
+		lf := newAsm()
+		lf.op(ADDRESS).push(0).op(MSTORE).op(CALLER).push(32).op(MSTORE).op(CALLVALUE).push(64).op(MSTORE).push(96).push(0).op(RETURN)
+		c.extra = append(c.extra, c10Acct{addr: leaf, nonce: 1, bal: big.NewInt(0), code: lf.bytes()})
+		kinds := []OpCode{CALL, CALLCODE, DELEGATECALL, DELEGATECALL, STATICCALL}
+		emit := func(x *c10Asm, to common.Address, retSize uint64) {
+			k := kinds[r.Intn(len(kinds))]
+			x.push(retSize).push(0).push(0).push(0)
+			if k == CALL || k == CALLCODE {
+				x.push(uint64(r.Intn(2) * (1 + r.Intn(9))))
+			}
+			x.pushAddr(to).op(GAS).op(k)
+		}
+		w := newAsm()
+		emit(w, leaf, 96)
+		w.push(96).op(MSTORE)
+		w.op(ADDRESS).push(128).op(MSTORE).op(CALLER).push(160).op(MSTORE).op(CALLVALUE).push(192).op(MSTORE)
+		w.push(224).push(0).op(RETURN)
+		otherCode = w.bytes()
+		emit(a, other, 224)
+		a.push(224).op(MSTORE)
+		a.push(256).push(0).op(RETURN)
 	default: // value transfer to non-existent / existing / self
 		name = "value-transfer"
 		ee := common.BytesToAddress([]byte{0xc0, 0xde, 0x00, 0x0e}) // exists in the pre-state and is empty
